@@ -26,7 +26,8 @@ EXPLANATION = (
     'interleaved nodes); R-C09.7 every mapping attribute of the graph classes '
     'is filled and probed with the same kind of key (app object vs app label '
     'vs node key); R-C09.8 the applied evolutions / migrations that prune '
-    'the graph are read from the database being evolved.')
+    'the graph are read from the database being evolved; '
+    'R-C09.9 app-level before-requirements attach to the app\'s __last__ anchor and after-requirements to its __first__ anchor (reaching definitions of the node argument in EvolutionGraph.add_evolutions).')
 NOT_DECIDED = (
     'Correctness of the topological sort on all graphs, and the behaviour '
     'of Django\'s own migration planner.')
@@ -538,7 +539,57 @@ def r8_applied_from_evolved_database(ctx):
                     key='migrations-from-other-db')
 
 
+def r9_anchor_polarity(ctx):
+    """App-level requirements attach to the app's anchors: "this app before
+    X" must make X depend on the app's *last* anchor (after every model
+    creation and evolution of the app), "this app after X" must make the
+    app's *first* anchor depend on X.  Attaching a before-requirement to the
+    first anchor keeps every edge and every unit, but only orders X after
+    the start of the app."""
+    ctx.rule('R-C09.9')
+    p = ctx.program
+    f = p.func(G, 'EvolutionGraph.add_evolutions')
+    g = ctx.cfg(f)
+    from ..flow import ReachingDefs
+    rd = ReachingDefs(g, f.params)
+    want = {'_add_evolution_node_before_deps': '__last__',
+            '_add_evolution_node_after_deps': '__first__'}
+    seen = 0
+    for node in g.nodes:
+        for c in node.calls():
+            nm = call_name(c)
+            if nm not in want or not c.args:
+                continue
+            seen += 1
+            arg = c.args[0]
+            anchors = set()
+            for on, oe in rd.origins(node, arg):
+                if isinstance(oe, ast.Call) and call_name(oe) == 'add_node':
+                    k = kwarg(oe, 'key') or (oe.args[0] if oe.args else None)
+                    txt = unparse(k) if k is not None else ''
+                    anchors.add('__last__' if '__last__' in txt else
+                                '__first__' if '__first__' in txt else '?')
+                elif isinstance(oe, ast.Call) and call_name(oe) in (
+                        '_add_create_model', '_add_evolution'):
+                    anchors.add('unit')
+            if anchors == {want[nm]}:
+                ctx.ok(f, 'app-level %s requirements attach to the %s anchor'
+                       % ('before' if 'before' in nm else 'after', want[nm]),
+                       c)
+            else:
+                ctx.finding(f, c, 'app-level %s requirements are attached to '
+                            '%s instead of the app\'s %s anchor: the other '
+                            'unit is only ordered relative to the %s of the '
+                            'app' % ('before' if 'before' in nm else 'after',
+                                     sorted(anchors) or ['<unknown>'],
+                                     want[nm], 'start' if 'before' in nm
+                                     else 'end'),
+                            key='anchor:%s' % nm)
+    ctx.floor('app-level dependency registrations in add_evolutions', seen, 2)
+
+
 def run(ctx):
+    r9_anchor_polarity(ctx)
     r8_applied_from_evolved_database(ctx)
     r7_mapping_key_kinds(ctx)
     r1_edge_direction(ctx)
